@@ -47,6 +47,9 @@ def model(ctx, hist, deviations=(), label="model trajectories", workers=16):
     return [out[k + 1] for k in range(len(hist))]
 
 
+DERIVED = enc("gffutils_derived")
+
+
 def canon_snap(db):
     """representation only: relation/counter/duplicate sets as sorted lists, attribute keys and values sorted"""
     return {"feats": [dbio.canon_feature(f) for f in db["feats"]],
@@ -68,13 +71,24 @@ def diff_clause(exp, got):
             continue
         if exp[k] != got[k]:
             if k == "feats":
-                if [f["id"] for f in exp[k]] != [f["id"] for f in got[k]]:
+                # keys: the same set, no key twice; ORDER is fixed for the features that come from input lines (they are stored in input order);
+                # where the importer inserts the features it DERIVES (GTF transcripts / genes) among them is not part of any statement
+                if sorted(f["id"] for f in exp[k]) != sorted(f["id"] for f in got[k]):
                     return "feature_keys"
-                for a, b in zip(exp[k], got[k]):
+                derived = set(json.dumps(f["id"]) for f in exp[k] if f["source"] == DERIVED)
+                if [f["id"] for f in exp[k] if json.dumps(f["id"]) not in derived] != [f["id"] for f in got[k] if json.dumps(f["id"]) not in derived]:
+                    return "feature_keys"
+                by = {json.dumps(f["id"]): f for f in got[k]}
+                for a in exp[k]:
+                    b = by[json.dumps(a["id"])]
                     if a != b:
                         for fld in a:
                             if a[fld] != b[fld]:
+                                # of a derived feature the statements fix id, type, seqid, strand and extent; its source / score / frame / attributes are the importer's own
+                                if json.dumps(a["id"]) in derived and fld in ("source", "score", "frame", "attrs", "extra"):
+                                    continue
                                 return "feature_" + fld
+                continue
             return {"rels": "relations", "ctr": "counters", "dups": "duplicates", "dirs": "directives", "nmeta": "meta_rows"}[k]
     return None
 
